@@ -1,6 +1,6 @@
 (* Props/C11.v — C11: a damaged table transmission never blocks a later intact one. *)
 From TS Require Import Base.Res Model.Timestamp Model.Packet Model.PesFilter Model.Crc Model.Psi Model.Demux Model.DemuxObs
-  Proofs.SectionProofs Proofs.TableProofs Proofs.Witnesses.
+  Spec.CrcSpec Proofs.SectionProofs Proofs.TableProofs Proofs.Witnesses.
 Open Scope N_scope.
 
 (* from EVERY state of the chain (whatever a damaged transmission left behind: any buffer contents, Buffering
@@ -24,6 +24,39 @@ Theorem C11_single_applied : forall fz (IS CX EV : Type) inner (c : chain IS) (c
        snd (fst r), snd r)).
 Proof. exact c11_single_applied. Qed.
 Print Assumptions C11_single_applied.
+
+(* the same for a section spanning packets: from EVERY state of the chain, a transmission of S whose version
+   differs from the remembered one — start packet carrying any 8..|S|-1 first bytes, then ANY tiling of the
+   rest by non-empty continuation payloads (stuffing or the next section's bytes may follow in the last) —
+   delivers nothing at the start and exactly [applied] at the end ... *)
+Theorem C11_multi_applied : forall fz (IS CX EV : Type) inner (c : chain IS) (cx : CX) S data off v cs extra,
+  accepted_start (hdr_of S) data -> (length S = ch_section_length (hdr_of S) + 3)%nat ->
+  (length data < length S)%nat -> data = firstn (length data) S ->
+  tsh_version (skipn 3 data) = Ok v -> dd_last_version c <> Some v ->
+  Forall (fun x => x <> nil) cs -> concat cs = skipn (length data) S ++ extra ->
+  (forall pre last, cs = pre ++ (last :: nil) -> (length extra < length last)%nat) -> cs <> nil ->
+  let c1 := set_buf IS (set_dedup IS (set_sp_ignore IS c false) (Some v) false) data (Buffering (length S - length data)) in
+  sp_start (table_cfg fz) IS CX EV inner c cx (hdr_of S) data off = Ok (c1, cx, nil) /\
+  run_continues fz IS CX EV inner c1 cx cs = applied fz IS CX EV inner c1 cx S.
+Proof. exact c11_multi_applied. Qed.
+Print Assumptions C11_multi_applied.
+
+(* ... where [applied], for an intact S, is one call of the table processor with exactly the bytes of S *)
+Theorem C11_applied_intact : forall fz (IS CX EV : Type) inner (c : chain IS) (cx : CX) S,
+  fz = false -> (12 <= length S)%nat -> m_sum32 S = 0 ->
+  applied fz IS CX EV inner c cx S =
+  (do r <- inner (in_state c) cx (hdr_of S) (skipn 3 S) S None;
+   Ok (set_inner IS (set_buf IS c S Complete) (fst (fst r)), snd (fst r), snd r)).
+Proof. exact applied_crc_ok. Qed.
+Print Assumptions C11_applied_intact.
+
+Definition wit_multi_body : list N :=
+  (0 :: 176 :: 29 :: 0 :: 1 :: 199 :: 0 :: 0 :: 0 :: 1 :: 225 :: 0 :: 0 :: 2 :: 225 :: 1 :: 0 :: 3 :: 225 :: 2 :: 0 :: 4 :: 225 :: 3 :: 0 :: 5 :: 225 :: 4 :: nil).
+Example C11_multi_nonvacuous :
+  let S := wit_multi_body ++ be32 (m_sum32 wit_multi_body) in
+  (12 <= length S)%nat /\ m_sum32 S = 0 /\ (length S = ch_section_length (hdr_of S) + 3)%nat /\
+  accepted_start (hdr_of S) (firstn 20 S) /\ tsh_version (skipn 3 (firstn 20 S)) = Ok 3.
+Proof. cbv zeta. repeat split; try (vm_compute; reflexivity); apply PeanoNat.Nat.leb_le; vm_compute; reflexivity. Qed.
 
 (* KNOWN FINDING F2 (refutation witness): the remembered version is recorded at section START, before
    completeness and CRC are known.  A PAT with one flipped bit (version 0) followed by the intact PAT
